@@ -20,7 +20,7 @@ type Rule struct {
 	Key    string `json:"key"`    // class key, e.g. "DATA@1460", "ACK@2921", "SYN", "FIN", "WUPD0"
 	Skip   int    `json:"skip"`   // matches to let pass first
 	Count  int    `json:"count"`  // matches to act on
-	Action string `json:"action"` // drop | dup | hold | replay
+	Action string `json:"action"` // drop | dup | hold | replay | refuse (the sending link endpoint returns a transmit error; Key is then a coarse kind: SYN SYNACK RST FIN DATA ACK ANY)
 	N      int    `json:"n"`      // dup: extra copies; hold/replay: number of later packets (same direction) to wait for
 
 	seen, fired int
@@ -94,6 +94,13 @@ func NewWire(a, b *Tap, prog Program) *Wire {
 	}
 	a.Forward = func(f Frame) { w.enqueue(0, f) }
 	b.Forward = func(f Frame) { w.enqueue(1, f) }
+	for _, r := range prog.Rules {
+		if r.Action == "refuse" {
+			a.Refuse = func(f Frame) *tcpip.Error { return w.refuse(0, f) }
+			b.Refuse = func(f Frame) *tcpip.Error { return w.refuse(1, f) }
+			break
+		}
+	}
 	w.wg.Add(2)
 	go w.pump(0)
 	go w.pump(1)
@@ -108,6 +115,46 @@ func (w *Wire) enqueue(dir int, f Frame) {
 	w.mu.Unlock()
 }
 
+// refuse decides, synchronously inside WritePacket, whether the sending link
+// endpoint refuses the frame with a transmit error (rules with Action
+// "refuse"). Their Key is the coarse kind of the segment: SYN, SYNACK, RST,
+// FIN, DATA, ACK or ANY (the content keys of the other actions need the
+// pump's state).
+func (w *Wire) refuse(dir int, f Frame) *tcpip.Error {
+	p := f.Pkt
+	if p == nil || p.L4Kind != "tcp" {
+		return nil
+	}
+	kind := "ACK"
+	switch {
+	case p.Flags&codec.SYN != 0 && p.Flags&codec.ACK != 0:
+		kind = "SYNACK"
+	case p.Flags&codec.SYN != 0:
+		kind = "SYN"
+	case p.Flags&codec.RST != 0:
+		kind = "RST"
+	case len(p.Payload) > 0:
+		kind = "DATA"
+	case p.Flags&codec.FIN != 0:
+		kind = "FIN"
+	}
+	w.mu.Lock()
+	defer w.mu.Unlock()
+	for i := range w.prog.Rules {
+		r := &w.prog.Rules[i]
+		if r.Action != "refuse" || r.Dir != dir || (r.Key != kind && r.Key != "ANY") {
+			continue
+		}
+		r.seen++
+		if r.seen > r.Skip && r.fired < r.Count {
+			r.fired++
+			w.ev = append(w.ev, Event{T: f.T, Dir: dir, Key: kind, Pkt: f.Pkt, Action: "refuse"})
+			return tcpip.ErrNoBufferSpace
+		}
+	}
+	return nil
+}
+
 // Stop ends the pumps (packets still queued are discarded).
 func (w *Wire) Stop() {
 	w.mu.Lock()
@@ -117,6 +164,8 @@ func (w *Wire) Stop() {
 	w.wg.Wait()
 	w.taps[0].Forward = nil
 	w.taps[1].Forward = nil
+	w.taps[0].Refuse = nil
+	w.taps[1].Refuse = nil
 }
 
 // Events returns what the wire saw so far.
@@ -240,7 +289,7 @@ func (w *Wire) pump(dir int) {
 		action, n := "", 0
 		for i := range w.prog.Rules {
 			r := &w.prog.Rules[i]
-			if r.Dir != dir || r.Key != key {
+			if r.Dir != dir || r.Key != key || r.Action == "refuse" {
 				continue
 			}
 			r.seen++
@@ -311,6 +360,7 @@ func (w *Wire) deliver(dir int, f Frame) {
 	if disp == nil {
 		return
 	}
+	chunks = dst.pad(tcpip.NetworkProtocolNumber(f.Proto), chunks)
 	views := make([]buffer.View, 0, len(chunks))
 	size := 0
 	for _, c := range chunks {
